@@ -351,11 +351,26 @@ func (w *World) newHandler(cacheName string) http.Handler {
 func (w *World) newHandlerOpt(opt server.ServerOption) http.Handler {
 	s := server.NewServer(opt)
 	w.lastServer = s
+	return w.chainOf(server.NewCache(s), server.NewProxy(s))
+}
+
+// AddHandlersFromConfig applies a server configuration the way a configuration load does (server.Reset) and
+// registers the middleware chain of every server under names[addr]
+func (w *World) AddHandlersFromConfig(configs []config.ServerConfig, names map[string]string) {
+	server.Reset(configs)
+	for addr, name := range names {
+		s := server.Get(addr)
+		w.handlers[name] = w.chainOf(server.NewCache(s), server.NewProxy(s))
+		w.servers[name] = s
+	}
+}
+
+func (w *World) chainOf(cacheMid, proxyMid elton.Handler) http.Handler {
 	e := elton.New()
 	e.Use(middleware.NewDefaultError())
 	e.Use(middleware.NewDefaultFresh())
 	e.Use(server.NewResponder())
-	e.Use(server.NewCache(s))
+	e.Use(cacheMid)
 	e.Use(func(c *elton.Context) error {
 		// harness middleware between cache and proxy: the `next` gate, scripted panic
 		w.S.Point("next")
@@ -365,7 +380,7 @@ func (w *World) newHandlerOpt(opt server.ServerOption) http.Handler {
 		}
 		return err
 	})
-	e.Use(server.NewProxy(s))
+	e.Use(proxyMid)
 	e.ALL("/*", func(c *elton.Context) error { return nil })
 	return e
 }
